@@ -49,7 +49,42 @@ REG_NOTE = ("Theorems are about the Lean model of x/wrkchain and x/beacon (one g
             "RegQ (no 64-bit counter has wrapped). The tie to the code is differential: the real app driven through ABCI vs. the compiled model on "
             "generated and corpus scripts, every run.")
 
+def is_str(k):
+    return k.startswith("str.") or k == "bank.send"
+
+
+STR_NOTE = ("Theorems are about the Lean model of x/stream (types/utils.go arithmetic with Go's fixed-width semantics, keeper and message server) over "
+            "bank-lite, lifted to every reachable state of the whole application model. The tie to the code is differential: real app through ABCI "
+            "vs. compiled model on generated and corpus scripts, plus the pure functions (vpure dur/claim/valfee/addsec) on boundary-heavy inputs, every run. "
+            "Six genuine defects found here were repaired by fix: commits (see KNOWN_FINDINGS.txt); their witnesses stay in the corpus.")
+
 PROPS = {
+    "C10": {
+        "chain": [chain("stream", 24, 25, 300, 40), chain("all", 16, 25, 200, 40), chain("gov", 8, 20, 100, 30)],
+        "corpus": ["witness"],
+        "relevant": rel_kinds(("I", "K", "B", "E", "D str.", "D bank.bal", "D bank.fees"), is_str),
+        "level_text": "Proof: c10_escrow_eq_sum_deposits (in every state of every run the stream escrow holds per denomination exactly the sum of the remaining deposits, all non-negative), c10_only_stream_ops_move_escrow, c10_send_to_escrow_rejected, c10_release_conserves_and_fee_split (total = payment + fee, fee = floor(total x rate), deposit shrinks by exactly the total), c10_topup_adds_exactly.",
+        "level_note": STR_NOTE + " Signer tracking (MaySign/GrantsOK) shows that no message whose funds come from the escrow account itself can execute; this rests on the modelled cryptographic assumption that nobody holds a key for a module address.",
+        "assumptions": ["BankSane: LockedCoins never reports a negative amount (SDK contract)", "genesis: bank-lite well-formed, no vesting module accounts, empty stream escrow"],
+    },
+    "C11": {
+        "chain": [chain("stream", 24, 25, 300, 40), chain("all", 16, 25, 200, 40)],
+        "pure": [{"kinds": ["dur", "claim", "valfee", "addsec"], Q: 2000, T: 200000}],
+        "corpus": ["witness"],
+        "relevant": rel_kinds(("I", "K", "B", "E", "D str."), lambda k: k.startswith("str.")),
+        "level_text": "Proof: c11_release_amount (before zero time exactly min(deposit, rate x whole seconds), at/after it the whole remainder), c11_never_faster, c11_zero_time_on_create (now + floor(D/r) s), c11_solvency (every stored stream in every state of every run: rate>=1, last<=now, rate x floor(zero-last) <= deposit or empty-and-expired), c11_remainder_covers_rest, c11_cancel_refunds_unreleased.",
+        "level_note": STR_NOTE,
+        "assumptions": ["RateQ: BankSane, no stream unclaimed for 2^63 ns (~292 years), block times non-negative and non-decreasing", "Duration.Seconds() float rounding not modelled: exact unless the nanosecond fraction is within 2^-20 of a full second and the gap exceeds 48 days"],
+    },
+    "C12": {
+        "chain": [chain("stream", 24, 25, 300, 40), chain("all", 16, 25, 200, 40)],
+        "pure": [{"kinds": ["dur", "claim", "valfee", "addsec"], Q: 2000, T: 200000}],
+        "corpus": ["witness"],
+        "relevant": rel_kinds(("I", "K", "B", "E", "D str."), lambda k: k.startswith("str.")),
+        "level_text": "Proof: c12_arithmetic_never_panics (CalculateValidatorFee total for every amount and fee in [0,1]; duration and claim arithmetic are total functions), c12_claim_succeeds and c12_cancel_succeeds (for every funded stream in every state of every run the claim / the sender's cancel returns ok), c12_fee_rate_always_valid.",
+        "level_note": STR_NOTE + " Top-ups whose resulting duration exceeds ~292 years are rejected with an error by design of the repair (not a panic, funds not stranded).",
+        "assumptions": ["RateQ as in C11", "Small: every balance below 2^255 (2^254 for cancel) so that the bank's 256-bit integers cannot overflow"],
+    },
     "C07": {
         "chain": [chain("reg", 24, 25, 300, 40), chain("all", 16, 25, 200, 40), chain("authz", 8, 20, 100, 30)],
         "corpus": ["witness"],
